@@ -35,6 +35,10 @@ class NS(object):
     def local(self, name):
         return self._st.env[name]
 
+    def final(self, name):
+        """value of a local or (rebound / in-place mutated) parameter at function exit (ensures only)"""
+        return self._st.ghost['$final_env'][name]
+
     def __getattr__(self, name):
         st = self._st
         if name == 'result' and self._result is not None:
@@ -163,6 +167,7 @@ class Contract(object):
                 if self.ensures is not None:
                     view = o.st.fork()
                     view.env = dict(o.st.env)
+                    view.ghost['$final_env'] = dict(o.st.env)   # ns.final(name): value of a local/parameter at exit
                     view.env.update(pre.env)      # parameters denote their entry values
                     ns = NS(ex, view, fr, old=pre, result=res)
                     goal = self.ensures(ns)
